@@ -1363,27 +1363,43 @@ class Epoch(object):
             if not tt2utc and leap_seconds == 0.0:
                 tt2utc = True
         # In this case, TT to UTC correction is applied automatically, but only
-        # for dates after July 1st, 1972
+        # for dates from January 1st, 1972 on, as done when building the Epoch
+        table_leap = None
         if tt2utc:
-            if year > 1972 or (year == 1972 and month >= 7):
+            if year >= 1972:
                 deltasec += 32.184  # Difference between TT and TAI
                 deltasec += 10.0  # Difference between UTC and TAI in 1972
-                deltasec += Epoch.leap_seconds(year, month)
+                table_leap = Epoch.leap_seconds(year, month)
+                deltasec += table_leap
         else:  # Correction is NOT automatic
             if leap_seconds != 0.0:  # We apply provided leap seconds
-                if year > 1972 or (year == 1972 and month >= 7):
+                if year >= 1972:
                     deltasec += 32.184  # Difference between TT and TAI
                     deltasec += 10.0  # Difference between UTC-TAI in 1972
                     deltasec += leap_seconds
         # Apply the correction if needed
         if deltasec != 0.0:
-            doy = Epoch.get_doy(year, month, day)
-            doy -= deltasec / DAY2SEC
-            # Check that we didn't change year
-            if doy < 1.0:
-                year -= 1
-                doy = 366.0 + doy if Epoch.is_leap(year) else 365.0 + doy
-            year, month, day = Epoch.doy2date(year, doy)
+            tt_year, tt_month, tt_day = year, month, day
+
+            def shift(delta):
+                doy = Epoch.get_doy(tt_year, tt_month, tt_day)
+                doy -= delta / DAY2SEC
+                y = tt_year
+                # Check that we didn't change year
+                if doy < 1.0:
+                    y -= 1
+                    doy = 366.0 + doy if Epoch.is_leap(y) else 365.0 + doy
+                return Epoch.doy2date(y, doy)
+
+            year, month, day = shift(deltasec)
+            if table_leap is not None and year >= 1972:
+                # The leap seconds in force are those of the UTC date: it may
+                # lie in the month before the TT date, before a leap second
+                utc_leap = Epoch.leap_seconds(year, month)
+                if utc_leap != table_leap:
+                    y2, m2, d2 = shift(deltasec + utc_leap - table_leap)
+                    if Epoch.leap_seconds(y2, m2) == utc_leap:
+                        year, month, day = y2, m2, d2
         return year, month, day
 
     def get_full_date(self, **kwargs):
